@@ -18,6 +18,8 @@ PROFILES = {
     'optional':  dict(cons=dict(task=4, opt=4, fol=1, res=1), p_opt=0.7, p_copt=0.15, resources=0.5, p_bad=0.0, ncons=(1, 6)),
     'resources': dict(cons=dict(task=2, opt=1, fol=0, res=1), p_opt=0.3, p_copt=0.1, resources=1.0, p_bad=0.0, ncons=(0, 4)),
     'rescons':   dict(cons=dict(task=1, opt=0, fol=0, res=8), p_opt=0.3, p_copt=0.15, resources=1.0, p_bad=0.0, ncons=(1, 5)),
+    'late':      dict(cons=dict(task=1, opt=0, fol=0, res=8), p_opt=0.2, p_copt=0.05, resources=1.0, p_bad=0.0, ncons=(1, 3), p_late=0.8,
+                      rescons=['CUnavailable', 'CWorkLoad', 'CInterrupted']),
     'mixed':     dict(cons=dict(task=4, opt=2, fol=2, res=4), p_opt=0.35, p_copt=0.2, resources=0.8, p_bad=0.0, ncons=(1, 7)),
     'malformed': dict(cons=dict(task=4, opt=3, fol=2, res=4), p_opt=0.35, p_copt=0.3, resources=0.9, p_bad=1.0, ncons=(1, 5)),
 }
@@ -87,7 +89,7 @@ class Gen:
         for _ in range(ncons):
             self.new_constraint()
             # late assignment (after constraints exist)
-            if self.workers and r.random() < 0.12:
+            if self.workers and r.random() < self.pf.get('p_late', 0.12):
                 self.assignments(1)
         if r.random() < self.pf['p_bad']:
             return self.malform(self.ops)
@@ -281,7 +283,7 @@ class Gen:
 
     def res_constraint(self):
         r = self.r
-        k = r.choice(RESCONS)
+        k = r.choice(self.pf.get('rescons', RESCONS))
         if k in ('CSameWorkers', 'CDistinctWorkers'):
             if len(self.selects) < 2:
                 return None
